@@ -591,7 +591,10 @@ def check_ortho(case):
     client, server = {"settings": cs}, {"settings": ss, "cred": "rsa"}
     if case.get("auth"):
         server["reqCert"] = True
-        client["cred"] = "c_rsa"
+        # (every client key type in turn; EdDSA exists from TLS 1.2 on)
+        client["cred"] = ["c_rsa", "c_ecdsa", "c_ed25519" if v >= (3, 3)
+                          else "c_rsa"][case["idx"] % 3]
+        labels.append("ccred=" + client["cred"])
     if case.get("tickets"):
         ss.ticketKeys = [bytearray(b"o" * 32)]
     DET.reseed("C19o", v, case["field"], case["idx"], case["who"])
